@@ -210,12 +210,19 @@ Verdict(h, s, f, l1) ==
       \* rejection point but a different status
       i04 == l1.st = "illegal" /\ l1.why = "link-external" /\ f = l1.fs /\ s # "illegal"
       i12 == l1.st = "illegal" /\ f = l1.fs /\ s # "illegal"
+      \* C12 "an Unpack that returns success has materialised the whole archive", for any history: a link entry
+      \* that is the last entry at its path, with nothing named below it, is there with its recorded target
+      lost12 == IF s # "ok" THEN {} ELSE
+                { i \in DOMAIN h : /\ h[i].k = "l" /\ ~HasDotDot(h[i].name) /\ Norm(h[i].name) # <<>>
+                                   /\ \A j \in DOMAIN h : (j > i /\ h[j].k \in Representable) => Norm(h[j].name) # Norm(h[i].name)
+                                   /\ \A j \in DOMAIN h : ~ProperPrefix(Norm(h[i].name), Norm(h[j].name))
+                                   /\ LET p == Dst \o Norm(h[i].name) IN ~(p \in DOMAIN f /\ f[p].k = "l" /\ f[p].tgt = h[i].tgt) }
       acc15 == cons /\ DirsTraversable(h) /\ s # "ok"          \* must-accept
       rej15 == HasUnrepresentable(h) /\ s = "ok" /\ l1.st = "illegal" /\ l1.why = "type"
   IN [ c01 |-> w01 = {},
        c04 |-> w04 = {} /\ ~i04,
        c15 |-> d15 = {} /\ ~acc15 /\ ~rej15,
-       c12 |-> ~i12,
+       c12 |-> ~i12 /\ lost12 = {},
        w01 |-> { CatS(p) : p \in w01 },
        w04 |-> { CatS(p) : p \in w04 },
        w15 |-> { d[1] \o ":" \o CatS(d[2]) : d \in d15 }
@@ -225,6 +232,8 @@ Verdict(h, s, f, l1) ==
                 LET cl == { KF04Class(f, p) : p \in w04 } IN
                 IF "" \in cl THEN "" ELSE IF Cardinality(cl) = 1 THEN CHOOSE x \in cl : TRUE
                 ELSE "KF-C04-absolute-target-inside+KF-C04-lexical-vs-physical",
+       w12 |-> (IF i12 THEN {"policy rejection reported as a plain error"} ELSE {})
+               \cup { "link entry " \o ToString(i) \o " is not there with its recorded target although Unpack succeeded" : i \in lost12 },
        kf15 |-> "", kf12 |-> "", c19 |-> s # "panic", w19 |-> {}, kf19 |-> "",
        cons |-> cons ]
 =============================================================================
